@@ -1,8 +1,9 @@
 (* C10 -- crash model of the OCI layout store (content/oci/oci.go, storage.go).
 
-   Executable model only (no proofs).  The store runs with its default
-   AutoSaveIndex = true and with AutoGC = false (plain Delete); GC is not
-   modelled (defects F1-F4 of Delete-with-AutoGC / GC belong to C08/C09).
+   Executable model only (no proofs).  Primitive operations: Push, Tag, Untag, plain
+   Delete, SaveIndex, Forget (the in-memory half of GC).  Delete with AutoGC and GC are
+   lists of primitives executed in a row (steps_seq); which nodes a cascade or a sweep
+   visits is C09's subject.  [autosave] is Store.AutoSaveIndex.
 
    Every operation of an initialised store is compiled, in program order, to the
    list of file-system micro-steps it issues (one per mutating system call, plus
@@ -154,6 +155,9 @@ Variable inplace : bool.
 (* unlink_first = true: Store.delete removes the blob before it rewrites index.json
    (the order is read off the source, see src_unlink_first below) *)
 Variable unlink_first : bool.
+(* Store.AutoSaveIndex (default true): Push of a manifest, Tag, Untag, Delete and GC save
+   index.json themselves; when false only SaveIndex writes it *)
+Variable autosave : bool.
 
 Definition index_steps (c : nat) (tags : list (N * N)) (digs : list N) : list mstep :=
   let l := shuffle c (save tags digs) in
@@ -161,6 +165,9 @@ Definition index_steps (c : nat) (tags : list (N * N)) (digs : list N) : list ms
   then [OpenTrunc FIndex; Write FIndex (AIndex l); Close FIndex]
   else [Create (FIndexTmp c); Write (FIndexTmp c) (AIndex l); Close (FIndexTmp c);
         Rename (FIndexTmp c) FIndex].
+
+Definition auto_idx (c : nat) (tags : list (N * N)) (digs : list N) : list mstep :=
+  if autosave then index_steps c tags digs else [].
 
 Definition mkdirs (fs : FS) (d : N) : list mstep :=
   (if dirs fs (DAlg (alg_of d)) then [] else [Mkdir (DAlg (alg_of d))]) ++
@@ -198,22 +205,22 @@ Definition op_steps (s : st) (o : op) : list mstep :=
         let t := FIngest d c in
         mkdirs (sfs s) d ++ [Create t] ++ map (fun x => Write t (AChunk x)) cont ++
         (if H cont =? d
-         then [Chmod t; Close t; Rename t (FBlob d)] ++ (if man then index_steps c tags' digs' else [])
+         then [Chmod t; Close t; Rename t (FBlob d)] ++ (if man then auto_idx c tags' digs' else [])
          else [Close t; Unlink t])
   | Tag d r =>
-      if exists_file (sfs s) (FBlob d) then index_steps c tags' digs' else []
+      if exists_file (sfs s) (FBlob d) then auto_idx c tags' digs' else []
   | Untag r =>
       match tag_get r (stags s) with
-      | Some _ => index_steps c tags' digs'
+      | Some _ => auto_idx c tags' digs'
       | None => []
       end
   | Delete d =>
       let ix := if existsb (fun e => snd e =? d) (stags s) || memN d (sdigs s)
-                then index_steps c tags' digs' else [] in
+                then auto_idx c tags' digs' else [] in
       let un := if exists_file (sfs s) (FBlob d) then [Unlink (FBlob d)] else [] in
       if unlink_first then un ++ ix else ix ++ un
   | SaveIndex => index_steps c tags' digs'
-  | Forget _ => index_steps c tags' digs'
+  | Forget _ => auto_idx c tags' digs'
   end.
 
 Definition op_res (s : st) (o : op) : res :=
